@@ -3,13 +3,18 @@
 spec -> code: GenBool.tla behaviours (priority partitions over a palette of
 surface cards incl. collections, duplicates, complements of cells and of
 sub-expressions) are concretised and converted by the real code.
+design: PipelineD.tla, a deterministic transcription of pot_flag / pot_optimise /
+pot_to_t4_cell / de-duplication / remove_empty_volumes / remove_unused_volumes, is
+model-checked (MeaningPreserved over ALL sense assignments, Wellformed,
+OptimiseSound) exhaustively for small expressions, and its behaviours are
+replayed into the real code (volume dictionaries compared modulo renaming).
 code -> spec: TraceDeck.tla recomputes MCNP's owner of every probe point with
 McnpSem.Locate (exact integer arithmetic) and compares it with the owners
 T4Sem derives from the written file.
 """
 import sys
 
-from .. import core, pipeline
+from .. import core, designcheck, pipeline, tlc
 from . import common_bool
 
 OWNER_KINDS = {'spurious', 'unowned', 'multi', 'wrongid', 'wrongprov', 'crash'}
@@ -34,6 +39,14 @@ def main():
     sub = [nd[t] for t in sorted(nd)][::max(1, len(nd) // 250)]
     pipeline.check_decks(chk, sub, lambda d, r: [[]], chk.seed)
     chk.cov['traces_validated_against_impl'] += chk.extra.get('pipeline_traces', 0)
+    core.lap('conformance')
+    try:
+        st = designcheck.run(chk, thorough, chk.seed)
+        chk.extra['design_check'] = {k: v for k, v in st.items()}
+        chk.cov['traces_validated_against_impl'] += st['replayed']
+    except tlc.TLCFailure as exc:
+        chk.machinery(str(exc))
+    core.lap('design check PipelineD + structural replay')
     chk.extra['rule'] = ('distinct = distinct abstract decks; non-trivial = the deck has a union or a complement '
                          'and at least two cells of non-zero importance own probe points (counted by TraceDeck.tla)')
     chk.extra['exhaustive'] = False
